@@ -449,7 +449,7 @@ def run(tier: str, seed: int) -> dict:
         exhaustive_note = 'the length-1 core histories and every length-2 core history that contains one fixed update, author pairing rotating'
     else:
         core = list(core_cases(2, [0, 1, 2]))
-        nrand, procs = 2400, min(16, os.cpu_count() or 1)
+        nrand, procs = 6000, min(16, os.cpu_count() or 1)
         exhaustive_note = 'all core histories of length <= 2 for the 3 author pairings'
     rand = [random_case(rng, i) for i in range(nrand)]
     cases = core + rand
